@@ -138,11 +138,11 @@ func bindResults(env *SpecEnv, fi *FuncInfo, p *Path) {
 }
 
 type runMode struct {
-	labels    map[string]bool // ensures labels to check (nil = all not owned by families)
-	fam       *FamilySpec
-	instance  string
-	noFrame   bool
-	noSafety  bool
+	labels   map[string]bool // ensures labels to check (nil = all not owned by families)
+	fam      *FamilySpec
+	instance string
+	noFrame  bool
+	noSafety bool
 }
 
 // runFunc executes the body from (c,p) and emits post/frame obligations for the finished paths.
@@ -603,9 +603,9 @@ type FamTemplate struct {
 	Missing bool
 	// Post: the family's postcondition as a predicate of an observed result value `fpres` (entry state), used to decide
 	// whether an output observed on the real code violates the contract. Facts: assumptions at entry (guard, requires).
-	Post     Term
-	Facts    []Term
-	ResSort  string
+	Post    Term
+	Facts   []Term
+	ResSort string
 }
 
 func (t *FamTemplate) defText() string {
